@@ -324,7 +324,7 @@ func hdrText(rng *rand.Rand) string {
 	return fmt.Sprintf("audit(%d.%03d:%d): ", 1400000000+rng.Intn(400000000), rng.Intn(1000), rng.Uint32())
 }
 
-func be16(n int) string  { return fmt.Sprintf("%04X", n&0xffff) }
+func be16(n int) string     { return fmt.Sprintf("%04X", n&0xffff) }
 func hexUp(b []byte) string { return strings.ToUpper(hex.EncodeToString(b)) }
 
 // genC12 builds a kernel-encoded record together with what Data() must return.
@@ -1163,6 +1163,11 @@ func auparseFamily(ctx *Ctx) error {
 				res.Sample(c)
 			}
 			run(c, toModel, true, "mutation:"+c.Kind)
+		}
+		for _, e := range c05EdgeRecords {
+			for _, t := range interestingTypes {
+				run(mkACase("data", t, "audit(1.000:1): "+e), true, true, "edge")
+			}
 		}
 		// fixed lines under every record type
 		step := 1
